@@ -870,31 +870,41 @@ func (fx *FnExec) unboxIface(v *Term, t types.Type) *Term {
 
 // implementers returns the tags of all known concrete types implementing iface.
 func (fx *FnExec) implementsCond(v *Term, iface *types.Interface) *Term {
-	// enumerate all named types of the program (and their pointers)
-	var conds []*Term
-	seen := map[string]bool{}
-	for _, p := range fx.e.prog.AllPackages() {
-		for _, m := range p.Members {
-			tn, ok := m.(*ssa.Type)
-			if !ok {
-				continue
-			}
-			for _, T := range []types.Type{tn.Type(), types.NewPointer(tn.Type())} {
-				if _, isI := T.Underlying().(*types.Interface); isI {
+	// one defined predicate per interface over the dynamic type tag: the set of
+	// named types of the program (and their pointers) that implement it
+	h := 0
+	for _, b := range []byte(iface.String()) {
+		h = (h*131 + int(b)) % 1000000007
+	}
+	name := fmt.Sprintf("impl_%d_%d", iface.NumMethods(), h)
+	if !fx.c.HasDecl(name) {
+		tv := Var("t!i", SInt)
+		var conds []*Term
+		seen := map[string]bool{}
+		for _, p := range fx.e.prog.AllPackages() {
+			for _, m := range p.Members {
+				tn, ok := m.(*ssa.Type)
+				if !ok {
 					continue
 				}
-				if types.Implements(T, iface) {
-					k := types.TypeString(T, nil)
-					if !seen[k] {
-						seen[k] = true
-						conds = append(conds, Eq(IfcTag(v), IntLit(int64(fx.e.typeTag(T)))))
+				for _, T := range []types.Type{tn.Type(), types.NewPointer(tn.Type())} {
+					if _, isI := T.Underlying().(*types.Interface); isI {
+						continue
+					}
+					if types.Implements(T, iface) {
+						k := types.TypeString(T, nil)
+						if !seen[k] {
+							seen[k] = true
+							conds = append(conds, Eq(tv, IntLit(int64(fx.e.typeTag(T)))))
+						}
 					}
 				}
 			}
 		}
+		sort.Slice(conds, func(i, j int) bool { return conds[i].String() < conds[j].String() })
+		fx.c.DefineFun(name, []*Term{tv}, SBool, Or(conds...), false)
 	}
-	sort.Slice(conds, func(i, j int) bool { return conds[i].String() < conds[j].String() })
-	return Or(conds...)
+	return App(name, SBool, IfcTag(v))
 }
 
 func (fx *FnExec) doTypeAssert(st *State, x *ssa.TypeAssert) {
